@@ -112,7 +112,7 @@ def evaluate_samples_rules(ctx, body):
     # ---- objective
     ex = T.expr(body, agg_field_operand(ss, 'objectives'), depth=14)
     okobj = any(x[0] == 'call' and x[1] == 'evaluate_samples' and 'v1::Function as evaluate::Evaluate' in x[2] and T.expr_has_call(x[3][0], 'objective') and T.strip_wrappers(x[3][1]) == ('place', 2, []) for x in T.expr_walk(ex))
-    ctx.check(okobj and ex[0] == 'agg' and ex[1].endswith('Option::Some') and [f for a, f in T.expr_fields(ex) if a == 'tuple'][-1:] == ['0'], R + '/objective', 'T-CARRY', body.name,
+    ctx.check(okobj and ex[0] == 'agg' and ex[1].endswith('Option::Some') and [f for a, f in T.own_fields(ex[2][0]) if a == 'tuple'][-1:] == ['0'], R + '/objective', 'T-CARRY', body.name,
               'SampleSet.objectives is not Some(`.0` of self.objective().evaluate_samples(samples))', body.site(sbi))
     errflow_calls(ctx, R + '/objective/error', body, [c for c in body.calls if c.item == 'evaluate_samples' and 'v1::Function as evaluate::Evaluate' in c.name], 'objective evaluation')
     carry_field(ctx, R + '/sense', body, ss, 'sense', need_fields=[(INST, 'sense')], site=body.site(sbi))
